@@ -125,6 +125,46 @@ FUNCTIONS = [
     ('isotp/protocol.py', 'TransportLayer', '_read_relay_queue'),
     ('isotp/protocol.py', 'TransportLayer', '__init__'),
     ('isotp/protocol.py', 'NotifierBasedCanStack', '_rx_canbus'),
+    ('isotp/address.py', 'Address', 'is_tx_only'),
+    ('isotp/address.py', 'Address', 'is_rx_only'),
+    ('isotp/address.py', 'Address', 'get_rx_prefix_size'),
+    ('isotp/address.py', 'Address', 'get_tx_payload_prefix'),
+    ('isotp/address.py', 'Address', 'is_for_me'),
+    ('isotp/address.py', 'Address', 'requires_rx_extension_byte'),
+    ('isotp/address.py', 'Address', 'requires_tx_extension_byte'),
+    ('isotp/address.py', 'Address', 'is_tx_29bits'),
+    ('isotp/address.py', 'Address', 'is_rx_29bits'),
+    ('isotp/address.py', 'AsymmetricAddress', 'get_tx_extension_byte'),
+    ('isotp/address.py', 'AsymmetricAddress', 'get_rx_extension_byte'),
+    ('isotp/address.py', 'AsymmetricAddress', 'is_for_me'),
+    ('isotp/address.py', 'AsymmetricAddress', 'get_tx_arbitration_id'),
+    ('isotp/address.py', 'AsymmetricAddress', 'get_rx_arbitration_id'),
+    ('isotp/address.py', 'AsymmetricAddress', 'is_tx_29bits'),
+    ('isotp/address.py', 'AsymmetricAddress', 'is_rx_29bits'),
+    ('isotp/address.py', 'AsymmetricAddress', 'requires_tx_extension_byte'),
+    ('isotp/address.py', 'AsymmetricAddress', 'requires_rx_extension_byte'),
+    ('isotp/address.py', 'AsymmetricAddress', 'get_rx_prefix_size'),
+    ('isotp/address.py', 'AsymmetricAddress', 'get_tx_payload_prefix'),
+    ('isotp/address.py', 'AsymmetricAddress', 'is_partial_address'),
+    ('isotp/can_message.py', 'CanMessage', '__init__'),
+    ('isotp/protocol.py', '', 'python_can_tx_canbus_3minus'),
+    ('isotp/protocol.py', '', '_make_python_can_tx_func'),
+    ('isotp/protocol.py', 'CanStack', '__init__'),
+    ('isotp/protocol.py', 'CanStack', 'set_bus'),
+    ('isotp/protocol.py', 'NotifierBasedCanStack', '__init__'),
+    ('isotp/protocol.py', 'TransportLayerLogic', '_set_rxfn'),
+    ('isotp/protocol.py', 'TransportLayer.Events', '__init__'),
+    ('isotp/tpsock/__init__.py', 'socket', '__init__'),
+    ('isotp/tpsock/__init__.py', 'socket', 'settimeout'),
+    ('isotp/tpsock/__init__.py', 'socket', 'gettimeout'),
+    ('isotp/tpsock/__init__.py', 'socket', 'fileno'),
+    ('isotp/tpsock/opts.py', 'GeneralOpts', '__init__'),
+    ('isotp/tpsock/opts.py', 'GeneralOpts', 'read'),
+    ('isotp/tpsock/opts.py', 'FlowControlOpts', '__init__'),
+    ('isotp/tpsock/opts.py', 'FlowControlOpts', 'read'),
+    ('isotp/tpsock/opts.py', 'LinkLayerOpts', '__init__'),
+    ('isotp/tpsock/opts.py', 'LinkLayerOpts', 'read'),
+    ('isotp/tpsock/opts.py', '', 'assert_is_socket'),
     ('isotp/protocol.py', 'NotifierBasedCanStack', 'start'),
     ('isotp/protocol.py', 'NotifierBasedCanStack', 'stop'),
     ('isotp/protocol.py', '', '_python_can_to_isotp_message'),
@@ -305,6 +345,9 @@ def expr(n):
         raise Unsupported('constant %r' % (v,))
     if isinstance(n, (ast.Name, ast.Attribute)):
         d = dotted(n)
+        if d is None and isinstance(n, ast.Attribute):
+            # `<expr>.name` on a computed value (e.g. `inspect.signature(f).parameters`): the call "__attr__" on the value and the name
+            return '(.call "__attr__" %s)' % ('(.cons %s (.cons (.strLit %s) .nil))' % (expr(n.value), lstr(n.attr)))
         if d is None:
             raise Unsupported('attribute of a computed value')
         return '(.var %s)' % lstr(d)
@@ -375,12 +418,13 @@ def expr(n):
             f = dotted(n.func.value.func) + '().' + n.func.attr
         if f is None:
             raise Unsupported('call of a computed value')
-        if n.keywords:
+        if n.keywords or any(isinstance(x, ast.Starred) for x in n.args):
             # keyword arguments: passed after the positional ones, their names appended to the callee's name (`f(a, k=b)` -> `f#k` [a, b]), so
-            # that the `Meths` of the theorem sees which parameter each value goes to
-            if any(k.arg is None for k in n.keywords):
-                raise Unsupported('**kwargs')
-            return '(.call %s %s)' % (lstr(f + ''.join('#' + k.arg for k in n.keywords)), args(list(n.args) + [k.value for k in n.keywords]))
+            # that the `Meths` of the theorem sees which parameter each value goes to; `*xs` / `**kw` are passed as the sequence / mapping
+            # itself, marked `#*` / `#**` in the callee's name (`f(*a, **k)` -> `f#*#**` [a, k])
+            name = f + ''.join('#*' for x in n.args if isinstance(x, ast.Starred)) + ''.join('#' + (k.arg or '**') for k in n.keywords)
+            pos = [x.value if isinstance(x, ast.Starred) else x for x in n.args]
+            return '(.call %s %s)' % (lstr(name), args(pos + [k.value for k in n.keywords]))
         if f == 'cast' and len(n.args) == 2 and not n.keywords:
             # `typing.cast(T, x)` returns x unchanged at run time; the type expression is not evaluated into the model
             return expr(n.args[1])
@@ -439,9 +483,9 @@ def stmt(n):
                 raise Unsupported('multiple assignment')
             v = n.value
             tg = n.targets[0]
-            if isinstance(tg, ast.Tuple) and all(isinstance(e, ast.Name) for e in tg.elts):
-                # `a, b = v`: unpacking binds both names or raises: the statement-level call "a,b:=__unpack__" on the value
-                return '(.expr (.call %s %s))' % (lstr(','.join(e.id for e in tg.elts) + ':=__unpack__'), args([v]))
+            if isinstance(tg, ast.Tuple) and all(dotted(e) is not None for e in tg.elts):
+                # `a, b = v` / `(o.x, o.y) = v`: unpacking binds all targets or raises: the statement-level call "a,b:=__unpack__" on the value
+                return '(.expr (.call %s %s))' % (lstr(','.join(dotted(e) for e in tg.elts) + ':=__unpack__'), args([v]))
             if isinstance(v, ast.Call) and dotted(v.func) == 'bytearray' and len(v.args) == 1 and isinstance(v.args[0], ast.Call) \
                     and dotted(v.args[0].func) == 'itertools.islice' and not v.keywords and not v.args[0].keywords:
                 # `x = bytearray(itertools.islice(gen, n))` pulls n values out of the generator: an effect, dumped as the statement-level call
@@ -481,6 +525,9 @@ def stmt(n):
             return '(.assert_ %s)' % expr(n.test)
         if isinstance(n, ast.If):
             return '(.ite %s %s %s)' % (expr(n.test), block(n.body), block(n.orelse))
+        if isinstance(n, (ast.Import, ast.ImportFrom)):
+            # a local import binds module names: kept visible as a call on the imported names
+            return '(.expr (.call "__import__" %s))' % ('(.cons (.strLit %s) .nil)' % lstr(','.join(a.name for a in n.names)))
         if isinstance(n, ast.Pass):
             return '.pass'
         if isinstance(n, ast.Try):
